@@ -2,7 +2,7 @@
 \* Texts {q1,q2,bad}, WrongHashes {x:rand}, map + LRU capacity 1..2, one
 \* malformed kind with and one without hash, one bad version; histories of any
 \* length sending at most 6 distinct <<hash,text>> pairs.
-\* Measured: 561046 distinct states, 35906947 generated, 115-130 s with 4 workers.
+\* Measured: 858832 distinct states, 54965251 generated, 3-5.5 min with 4 workers (loaded machine).
 SPECIFICATION Spec
 CONSTANTS
   Texts <- QTexts
